@@ -372,6 +372,10 @@ def partScalarSolb (cfg : Cfg) (floor : Int) (nGlobal : Nat) (ranks : List (List
   match Solb.scalarPlan cfg nGlobal bs with
   | .error e => .error e
   | .ok (dim, next, nnode, ldim, s) =>
+    -- `if (0 == (*ldim)) nnode_read = nnode;` (repo 54a1e7c): a section without fields runs no pass of the loop
+    if ldim = 0 then
+      (if next = tell bs s then .ok (0, ranks.map fun gl => List.replicate gl.length []) else .error .failure)
+    else
     match scatterFile (dim == 2) nnode nnode floor ldim (rdMany (Solb.rdF64s ldim)) ranks
             (ranks.map fun gl => List.replicate gl.length []) s with
     | .error e => .error e
